@@ -383,7 +383,7 @@ def check_king_is_legal(ctx, f, L):
 
 PANIC_TABLE = {
     ("Board::king", "expect", "bitboard::BitBoard::next_square"): "every accepted board has exactly one king per colour (C06)",
-    ("Board::target_squares", "unwrap", "bitboard::BitBoard::next_square"): "instantiated with IN_CHECK=true only under len(checkers) == 1",
+    ("<target-squares>", "unwrap", "bitboard::BitBoard::next_square"): "instantiated with IN_CHECK=true only under len(checkers) == 1",
     ("get_bishop_moves", "assert", "BoundsCheck"): "C05 in-bounds audit",
     ("get_rook_moves", "assert", "BoundsCheck"): "C05 in-bounds audit",
     ("pext::get_pext_index", "assert", "Overflow:Add(usize)"):
@@ -392,6 +392,15 @@ PANIC_TABLE = {
     ("square::Square::index_const", "panic", "panic_fmt"): "documented panicking constructor; callers proved in range",
     ("file::File::index_const", "panic", "panic_fmt"): "documented panicking constructor; callers proved in range",
 }
+
+
+def role_table(f):
+    """the panic table with the private target-square helper named as it is called today"""
+    from .names import names as _names
+    from ..panics import short as _short
+    tab = dict(PANIC_TABLE)
+    tab[(_short(_names(f).target_squares), "unwrap", "bitboard::BitBoard::next_square")] = tab.pop(("<target-squares>", "unwrap", "bitboard::BitBoard::next_square"))
+    return tab
 
 
 def run(ctx):
@@ -412,7 +421,7 @@ def run(ctx):
                           movegen.extract_sites(f, L, movegen.gen_key(f, "Pawn"), {"IN_CHECK": sym.TRUE})[2], movegen.spec_sites("Pawn", True))
     ctx.rule("panic-audit")
     a = panics.Audit(f).run([B + "::is_legal"])
-    panics.report(ctx, a, PANIC_TABLE, "panic")
+    panics.report(ctx, a, role_table(f), "panic")
     # look-up functions equal geometry (owned by C05): the atoms of the specifications above stand on it
     from . import c05
     c05.run_lookups(ctx)
